@@ -117,6 +117,10 @@ type zzFixtureCfg struct{ Gap float64 }
 
 func zzFixtureRows(cfg *zzFixtureCfg, h float64) float64 { return h / cfg.Gap }
 `, "zzFixtureRows"},
+	{"R181", "pkg/expression/xpath/zz_fixture_r181.go", `package xpath
+
+func zzFixtureElement(name, text string) string { return "<" + name + ">" + text + "</" + name + ">" }
+`, "zzFixtureElement"},
 }
 
 // checkFixtures runs the zero-expected rules among ids on the fixture program and returns one obligation per rule.
